@@ -7,12 +7,21 @@
       C04_server_limit            no server holds more instances of an affinity than they allow at server level.
     Refuted for the levels above the server on the code as it is (known finding, TODO in the source):
       C04_levels_refuted          the eviction path puts an instance straight on a server and exceeds a rack limit.
-    Partial: counters of racks/pods/cell and limits above server level are decided by the per-operation
-    correspondence (stored counters of every bucket are in the digest) and the C04 oracle (recount from the leaves);
-    every violation found so far goes through a direct put (eviction or restore) and is listed in known_findings.json. *)
+      C04_bucket_counts         (Sched/InvCount.v, built by a sub-agent) in every reachable state the affinity counter
+                                kept by EVERY bucket - rack, pod, cell - equals the number of instances of that
+                                affinity placed on the servers below it (parent chain), for all histories including
+                                topology changes (servers added, moved between racks, removed) and every path of a
+                                cycle (walk, eviction scan, restore); C04_cell_counts: the root counter equals the number
+                                placed in the cell. Side conditions: a new bucket has a fresh name and an existing
+                                parent, a new or moved server an existing parent.
+    So the second sentence of the statement ("the per-node affinity counts the scheduler keeps equal the true
+    counts") is a theorem at every level; the first sentence holds at server level (C04_server_limit) and is refuted
+    above it on the code as it is (C04_levels_refuted): the counters are right, the limit is not consulted on the
+    eviction and restore paths. *)
 From Coq Require Import ZArith QArith List Bool.
 From TM Require Import Sched.Vec Sched.Types Sched.Tree Sched.Cycle Sched.Events Sched.MapsP Sched.Steps
-                       Sched.InvAcct Sched.InvAff.
+                       Sched.InvAcct Sched.InvAff Sched.InvCount.
+From TM Require Import Base.ShapeCanon.
 Import ListNotations.
 Open Scope Z_scope.
 
@@ -41,6 +50,26 @@ Proof.
   rewrite <- (af_exact _ HF _ _ (a_aff a) Hg). exact (af_limit _ HF _ _ _ _ _ Hg Hm Ha HL).
 Qed.
 Print Assumptions C04_server_limit.
+
+Theorem C04_bucket_counts : forall dim root level ops,
+  wf_ops_aff (init_cell dim root level) ops -> wf_ops_cnt (init_cell dim root level) ops ->
+  let c := run (init_cell dim root level) ops in
+  forall b aff, In b (c_buckets c) ->
+    cget aff (b_counters b) = placed_below c (b_name b) aff /\ cget aff (b_counters b) = srv_count c (b_name b) aff.
+Proof. exact bucket_counts_reachable. Qed.
+Print Assumptions C04_bucket_counts.
+
+Theorem C04_cell_counts : forall dim root level ops,
+  wf_ops_aff (init_cell dim root level) ops -> wf_ops_cnt (init_cell dim root level) ops ->
+  let c := run (init_cell dim root level) ops in
+  exists b, get_bkt root (c_buckets c) = Some b /\ forall aff, cget aff (b_counters b) = placed_in_cell c aff.
+Proof. exact root_counts_reachable. Qed.
+Print Assumptions C04_cell_counts.
+
+Theorem C04_counts_cycle : forall c ch, TreeWf c -> CountExact c ->
+  TreeWf (fst (fst (schedule c ch))) /\ CountExact (fst (fst (schedule c ch))).
+Proof. exact CountExact_schedule. Qed.
+Print Assumptions C04_counts_cycle.
 
 (** the code as it is: rack limit 1, a filler and an instance of affinity 3000 in one rack; a higher-priority
     instance of the same affinity arrives, evicts the filler and lands next to the first one *)
@@ -74,3 +103,17 @@ Example C04_nonvacuous :
                     OAddApp 4000 [] (ex_y 1 1 1); OAddApp 4000 [] (ex_y 2 1 2); OSchedule []]))
   = [(1, Some 1000); (2, None)].
 Proof. vm_compute. reflexivity. Qed.
+
+(** non-vacuity of C04_bucket_counts: the refutation history satisfies both side conditions; the rack counter is 2
+    with two instances of affinity 3000 really below the rack *)
+Example C04_bucket_counts_nonvacuous :
+  wf_ops_cntb (init_cell 3 2000 1) ex_ops = true /\
+  placed_below (run (init_cell 3 2000 1) ex_ops) 2001 3000 = 2.
+Proof. vm_compute. split; reflexivity. Qed.
+
+(** the functions of treadmill/scheduler/__init__.py these theorems were proved about still have the statement
+    skeleton the model was written from (re-extracted from the Python AST on every run, harness/tables_shape.py;
+    kept last so that a difference does not stop the theorems above from being checked) *)
+Theorem C04_source_shape : shapes_ok_C04 = true.
+Proof. vm_compute. reflexivity. Qed.
+Print Assumptions C04_source_shape.
